@@ -7,9 +7,9 @@ from pathlib import Path
 V = Path(__file__).resolve().parent.parent
 SPECS = {"C01": "Jws.tla, JwsInFlight.tla, JwsNoProtected.tla, JwsMemberKeys.tla", "C02": "Jwe.tla", "C03": "JwsRoundTrip.tla", "C04": "JweRoundTrip.tla, JweReuse.tla", "C05": "AlgRegistry.tla, JoseDefs.tla, TraceApi.tla",
          "C06": "KeyFit.tla (+TraceApi.tla)", "C07": "Wire.tla, WireEval.tla (+JwsRoundTrip)", "C08": "Wire.tla, WireEval.tla (+JweRoundTrip), JweReuse.tla", "C09": "Jwt.tla",
-         "C10": "Claims.tla, ClaimsReuse.tla, ClaimsClasses.tla, ClaimsEval.tla", "C11": "Jwk.tla, JwkImport.tla", "C12": "Jwk.tla, JwkHeap.tla, JweReuse.tla", "C13": "Jwk.tla, Wire.tla", "C14": "KeySel.tla, KeySetHistory.tla", "C15": "HeaderCheck.tla (+TraceApi.tla)",
+         "C10": "Claims.tla, ClaimsReuse.tla, ClaimsClasses.tla, ClaimsEval.tla", "C11": "Jwk.tla, JwkImport.tla", "C12": "Jwk.tla, JwkHeap.tla, JweReuse.tla", "C13": "Jwk.tla, Wire.tla", "C14": "KeySel.tla, KeySetHistory.tla, PickTable.tla", "C15": "HeaderCheck.tla (+TraceApi.tla)",
          "C16": "Parse.tla", "C17": "Deflate.tla, DeflateShared.tla, ZipHistory.tla", "C18": "Fresh.tla, MC_Fresh.tla, TraceFresh.tla", "C19": "Codec.tla, MC_Codec.tla, CodecEval.tla",
-         "C20": "Shared.tla, SharedSet.tla, SharedSeq.tla, TraceShared.tla"}
+         "C20": "Shared.tla, SharedSet.tla, SharedSeq.tla, TraceShared.tla, PickTable.tla"}
 BIND = {"C01": "B1 spec->code + scheduler", "C02": "B1", "C03": "B1", "C04": "B1", "C05": "B1 (fresh process per history) + B2 (repo test-suite traces)", "C06": "B1 + B2 (repo test-suite traces)", "C07": "B3 + interop",
         "C08": "B3 + interop", "C09": "B1", "C10": "B1 + histories + B2 (repo test-suite traces)", "C11": "B1 (chains)", "C12": "B1 (chains, heap histories, scans)", "C13": "B1 + B3", "C14": "B1", "C15": "B1 + B2 (repo test-suite traces)",
         "C16": "B1 + fuzz", "C17": "B1 + scheduler", "C18": "B2 code->spec (trace validation)", "C19": "B3", "C20": "scheduler + B2 (state traces) + B1 histories"}
